@@ -80,6 +80,20 @@ for op in ('mult', 'div', 'mod'):
     # 64-bit multiply / divide / remainder equivalence: thorough tier only (did not finish in 600 s on SAT)
     jobs.append(job('evplus_%s_kernel' % op, 'lemma_evplus_%s_kernel' % op, props=['C05', 'C16'] if op != 'mult' else ['C05'], tier='thorough', timeout=7200))
 
+for op in ('max', 'min'):
+    funcs += [dict(cls='evplus_' + op, name='stopOnEqualArgs', file=opfile(op), static=True), dict(cls='evplus_' + op, name='simplifiesToFirstArg', file=opfile(op), static=True),
+              dict(cls='evplus_' + op, name='simplifiesToSecondArg', file=opfile(op), static=True),
+              dict(cls='evplus_' + op, name='apply', file=opfile(op), static=True, sel=r'^const edge_value &c, node_handle d', cname='evplus_%s__apply' % op, argc_key=6)]
+    jobs += [job('evplus_%s_kernel' % op, 'lemma_evplus_%s_kernel' % op), job('evplus_%s_shortcuts_pw' % op, 'lemma_evplus_%s_shortcuts_pw' % op)]
+for op in ('plus', 'minus'):
+    # arith_factor interface: edge values are factored out, predicates and the node-level kernel see node handles only
+    funcs += [dict(cls='evplus_' + op, name='stopOnEqualArgs', file=opfile(op), static=True), dict(cls='evplus_' + op, name='simplifiesToFirstArg', file=opfile(op), static=True),
+              dict(cls='evplus_' + op, name='simplifiesToSecondArg', file=opfile(op), static=True),
+              dict(cls='evplus_' + op, name='apply', file=opfile(op), static=True, sel=r'^const forest\* fa, node_handle a', cname='evplus_%s__apply_node' % op, argc_key=6),
+              dict(cls='evplus_' + op, name='apply', file=opfile(op), static=True, sel=r'^const edge_value &a, const edge_value &b', cname='evplus_%s__apply_edge' % op, argc_key=3)]
+    jobs += [job('evplus_%s_kernel' % op, 'lemma_evplus_%s_kernel' % op, props=['C05', 'C16'] if op == 'minus' else ['C05']),
+             job('evplus_%s_shortcuts_pw' % op, 'lemma_evplus_%s_shortcuts_pw' % op, props=['C05', 'C16'] if op == 'minus' else ['C05'])]
+
 UNIT = {
     'name': 'arith',
     'conversion_classes': ['edge_value'],
@@ -93,7 +107,7 @@ UNIT = {
         ('edge_value', {'file': EVH}),
         ('policies', {'file': PH, 'fields': ['reduction']}),
         ('forest', {'file': FH, 'fields': ['deflt', 'the_terminal_type'], 'override': {'deflt': 'struct policies deflt'}}),
-    ] + [('mt_' + op, {'opaque': True}) for op in OPS] + [('evplus_' + op, {'opaque': True}) for op in ('mult', 'div', 'mod')]
+    ] + [('mt_' + op, {'opaque': True}) for op in OPS] + [('evplus_' + op, {'opaque': True}) for op in ('mult', 'div', 'mod', 'max', 'min', 'plus', 'minus')]
       + [(c + sfx, {'opaque': True}) for c in CMP for sfx in ('_base', '_mt', '_evplus')]),
     'foreign': {
         'getValueFromHandle': {'*': 'forest__getValueFromHandle_long'},
